@@ -13,6 +13,8 @@ type ServicePlan struct {
 	MaxMsg      uint32   `json:"max_msg,omitempty"`
 	MaxGetURL   uint32   `json:"max_get_url,omitempty"`
 	DiscardUnknownQuery bool `json:"discard_unknown_query,omitempty"`
+	EmptyProtocols bool `json:"empty_protocols,omitempty"` // WithTargetProtocols() with no arguments
+	EmptyCodecs    bool `json:"empty_codecs,omitempty"`    // WithTargetCodecs() with no arguments
 }
 
 func (s *ServicePlan) protocols() []string {
@@ -51,6 +53,7 @@ type RulePlan struct {
 	Body     string     `json:"body,omitempty"`
 	RespBody string     `json:"resp_body,omitempty"`
 	Additional []RulePlan `json:"additional,omitempty"`
+	NoPattern  bool       `json:"no_pattern,omitempty"`
 }
 
 type ConfigPlan struct {
@@ -60,6 +63,7 @@ type ConfigPlan struct {
 	DefaultsOnly   bool          `json:"defaults_only,omitempty"` // put service options in WithDefaultServiceOptions instead
 	PlainCodecs    bool          `json:"plain_codecs,omitempty"`  // json/proto codecs wrapped so that they do not implement StableCodec
 	ExtraCodecs    []string      `json:"extra_codecs,omitempty"`
+	Defaults       *ServicePlan  `json:"defaults,omitempty"` // WithDefaultServiceOptions(...) for all services
 }
 
 type Fault struct {
